@@ -1512,7 +1512,7 @@ def impl_shapes(ck):
 def compare_shapes(ck, model):
     """Informational: does the code still take the steps spec/PolyseedImpl.tla describes?  A refactoring may
     legitimately change them; the contract (not this) decides violations."""
-    ops = {"Create", "Decode", "DecodeX", "Load", "Free", "Crypt", "Keygen", "Store", "Feature", "Enable", "Inject"}
+    ops = {"Create", "Decode", "DecodeX", "Load", "Free", "Crypt", "Keygen", "Store", "Feature", "Enable", "Inject", "Encode"}
     code = {s for s in ck.shapes if s[0] in ops}
     unknown = sorted(code - model)
     ck.extra["implementation_model"] = dict(model_shapes=len(model), code_shapes=len(code), code_shapes_in_model=len(code & model),
